@@ -760,7 +760,11 @@ class DocGen:
         kinds_fn = ["param", "param", "keyword", "return", "yield", "raise", "warn", "var", "note", "see", "since", "author", "todo", "custom"]
         kinds_cls = ["param", "ivar", "cvar", "ivar", "raise", "note", "see", "since", "author", "todo", "custom"]
         kinds_mod = ["var", "var", "note", "see", "since", "author", "todo", "custom"]
-        pool = {"function": kinds_fn, "class": kinds_cls, "module": kinds_mod}[owner]
+        kinds_prop = ["return", "return", "raise", "note", "see", "todo"]
+        kinds_var = ["note", "see", "since", "author", "todo", "custom"]
+        pool = {"function": kinds_fn, "class": kinds_cls, "module": kinds_mod, "property": kinds_prop,
+                "variable": kinds_var}[owner]
+        allow_dup = self.rng.random() < 0.25          # the same parameter / keyword documented twice
         used_args, singles = set(), set()
         for _ in range(n):
             k = self.rng.choice(pool)
@@ -772,7 +776,7 @@ class DocGen:
                 if self.rng.random() < 0.5:
                     typ = self.rng.choice(["int", "str"])
             elif k == "param":
-                cands = [a for a in ("a", "b") if ("p", a) not in used_args]
+                cands = [a for a in ("a", "b") if ("p", a) not in used_args or allow_dup]
                 if not cands:
                     continue
                 arg = self.rng.choice(cands)
@@ -781,7 +785,7 @@ class DocGen:
                     typ = self.rng.choice(["int", "str"])
             elif k == "keyword":
                 arg = self.rng.choice(["opt", "flag"])
-                if ("k", arg) in used_args:
+                if ("k", arg) in used_args and not allow_dup:
                     continue
                 used_args.add(("k", arg))
             elif k in ("raise", "warn"):
@@ -797,10 +801,17 @@ class DocGen:
             if any(i[0] in ("m", "link", "url") for i in body):
                 self.nested_markup = True
             res.append({"kind": k, "arg": arg, "type": typ, "body": body, "type_first": self.rng.random() < 0.5})
+        if allow_dup and owner == "function":
+            # the same keyword (and sometimes the same parameter) documented twice
+            for k, arg in [("keyword", "opt")] + ([("param", "a")] if self.rng.random() < 0.5 else []):
+                have = sum(1 for f in res if f["kind"] == k and f["arg"] == arg)
+                for _ in range(max(0, 2 - have)):
+                    res.insert(self.rng.randrange(len(res) + 1),
+                               {"kind": k, "arg": arg, "type": None, "body": self.inlines(1, 4), "type_first": False})
         return res
 
     def document(self):
-        owner = self.rng.choice(["function", "function", "class", "module"])
+        owner = self.rng.choice(["function", "function", "function", "class", "class", "module", "module", "property", "variable"])
         self.nested_markup = False
         body = [self.para()] + self.blocks(self.rng.choice([0, 1, 1, 2, 3, 4]))
         r = self.rng.random()
@@ -808,8 +819,14 @@ class DocGen:
             body[0][1].append(("code2", "a  b"))       # inline code with a run of two blanks
         elif r < 0.06:
             body[0][1].append(("w", "10\u00a0EUR"))    # a no-break space in the text
-        return {"owner": owner, "body": body, "fields": self.fields(owner),
-                "field_perm": self.rng.randrange(1 << 30) if self.rng.random() < 0.4 else None}
+        doc = {"owner": owner, "body": body, "fields": self.fields(owner),
+               "field_perm": self.rng.randrange(1 << 30) if self.rng.random() < 0.4 else None}
+        if owner == "variable":
+            doc["var_level"] = self.rng.choice(["module", "class", "instance"])
+            doc["var_type"] = self.rng.choice(["int", "str", None])
+        if owner == "property" and self.rng.random() < 0.5:
+            doc["return_tag"] = "returns"          # `@returns:` / `:returns:` instead of `@return:` / `:return:`
+        return doc
 
 
 # ====================================================================== documents: serialisers
@@ -829,6 +846,9 @@ class Ser:
         self.ep = fmt == "epytext"
         self.last: Optional[str] = None
         self.field_perm: Optional[int] = None
+        self.var_type: Optional[str] = None
+        self.return_tag: Optional[str] = None
+        self.attr_owner = False      # google/numpy read "type: description" on the first line of an attribute docstring
 
     # ---- inline: returns (source, visible)
     def inl(self, node, in_markup: Optional[str] = None) -> Tuple[str, str]:
@@ -952,7 +972,7 @@ class Ser:
         if t != "section":
             self.last = "literal" if (t == "literal" or (t == "code" and self.ep)) else t
         if t == "para":
-            lines.extend(self.wrap(b[1], pad, pad, out.words))
+            lines.extend(self.wrap(b[1], pad, pad, out.words, no_colon=(nap and self.attr_owner and not lines)))
             lines.append("")
         elif t == "hard":
             for l in b[1]:
@@ -1053,15 +1073,19 @@ class Ser:
 
     def fields(self, fields, owner: str, lines: List[str]) -> List[Dict[str, Any]]:
         exp: List[Dict[str, Any]] = []
-        if self.fmt == "plaintext" or not fields:
+        if self.fmt == "plaintext" or not (fields or (self.var_type and self.fmt in ("epytext", "restructuredtext"))):
             return exp
         if self.fmt in ("epytext", "restructuredtext"):
             def mk(tag, arg):
                 head = tag + (" " + arg if arg else "")
                 return ("@%s: " % head) if self.ep else (":%s: " % head)
             entries: List[List[str]] = []
+            if self.var_type:
+                entries.append([mk("type", None) + self.var_type])
             for f in fields:
                 tag = self.TAGS.get(f["kind"], f["kind"])
+                if f["kind"] == "return" and self.return_tag:
+                    tag = self.return_tag
                 w: List[str] = []
                 desc = self.wrap(f["body"], mk(tag, f["arg"]), "    ", w)
                 e = dict(kind=f["kind"], tag=tag, arg=f["arg"], words=w, type=None)
@@ -1149,16 +1173,19 @@ class Ser:
             while lines and lines[-1] == "":
                 lines.pop()
             return {"docstring": "\n".join(lines), "out": out, "fields": []}
+        self.attr_owner = doc["owner"] in ("property", "variable")
         for b in doc["body"]:
             self.block(b, 0, out, lines)
         self.field_perm = doc.get("field_perm")
+        self.var_type = doc.get("var_type") if self.fmt in ("epytext", "restructuredtext") else None
+        self.return_tag = doc.get("return_tag")
         fexp = self.fields(doc["fields"], doc["owner"], lines)
         while lines and lines[-1] == "":
             lines.pop()
-        return {"docstring": "\n".join(lines), "out": out, "fields": fexp}
+        return {"docstring": "\n".join(lines), "out": out, "fields": fexp, "var_type": self.var_type}
 
 
-def module_source(owner: str, docstring: str) -> Tuple[str, str]:
+def module_source(owner: str, docstring: str, var_level: str = "module") -> Tuple[str, str]:
     """python source of module `m` carrying the docstring on the chosen owner; returns (source, owner full name)"""
     def lit(ind):
         body = "\n".join((" " * ind + l) if l else "" for l in docstring.split("\n"))
@@ -1168,6 +1195,14 @@ def module_source(owner: str, docstring: str) -> Tuple[str, str]:
     other = "def f(a, b=1, *args, **kw):\n    pass\nclass K:\n    def __init__(self, a, b=2):\n        pass\n    def meth(self):\n        pass\nx = 1\n"
     if owner == "module":
         return lit(0) + other, "m"
+    if owner == "property":
+        return other + "class P:\n    @property\n    def prop(self):\n" + lit(8) + "        return 1\n", "m.P.prop"
+    if owner == "variable":
+        if var_level == "module":
+            return other + "vv = 1\n" + lit(0), "m.vv"
+        if var_level == "class":
+            return other + "class V:\n    vv = 1\n" + lit(4), "m.V.vv"
+        return other + "class V:\n    def __init__(self):\n        self.vv = 1\n" + lit(8), "m.V.vv"
     if owner == "function":
         return "class K:\n    def __init__(self, a, b=2):\n        pass\n    def meth(self):\n        pass\nx = 1\ndef f(a, b=1, *args, **kw):\n" + lit(4) + "    pass\n", "m.f"
     return "def f(a, b=1, *args, **kw):\n    pass\nx = 1\nclass K:\n" + lit(4) + "    def __init__(self, a, b=2):\n        pass\n    def meth(self):\n        pass\n", "m.K"
@@ -1269,8 +1304,12 @@ def render_doc(src: str, fmt: str, full: str) -> Dict[str, Any]:
         b.buildModules()
         obj = system.allobjects[full]
         res["docstring"] = obj.docstring
+        res["own_type"] = None
+        if isinstance(obj, model.Attribute):
+            t0 = epydoc2stan.type2stan(obj)          # attributechild.html renders the type, then the docstring
+            res["own_type"] = flatten(t0) if t0 is not None else None
         res["html"] = flatten(epydoc2stan.format_docstring(obj))
-        for name, sub in obj.contents.items():
+        for name, sub in getattr(obj, "contents", {}).items():
             if isinstance(sub, model.Attribute) and name in ("zz", "yy", "ww", "a", "b"):
                 t = epydoc2stan.type2stan(sub)
                 res["attrs"][name] = {"visible": bool(sub.isVisible), "kind": str(sub.kind),
@@ -1312,8 +1351,8 @@ def oracle_document(ctx: Ctx, fmt: str, doc, ser, full: str, src: str, r) -> Non
     if fmt == "plaintext":
         shown = text_of(root, sep=False)
         import ast
-        want = inspect.cleandoc(next(ast.get_docstring(n, clean=False) for n in ast.walk(ast.parse(src))
-                                     if isinstance(n, (ast.Module, ast.ClassDef, ast.FunctionDef)) and ast.get_docstring(n, clean=False)))
+        want = inspect.cleandoc(next(n.value.value for n in ast.walk(ast.parse(src))
+                                     if isinstance(n, ast.Expr) and isinstance(n.value, ast.Constant) and isinstance(n.value.value, str)))
         if shown != want:
             ctx.fail("plaintext:not-reproduced-exactly", {**inp, "shown": shown}, "plaintext docstring is not reproduced exactly")
         return
@@ -1364,6 +1403,12 @@ def oracle_document(ctx: Ctx, fmt: str, doc, ser, full: str, src: str, r) -> Non
         t = " ".join(text_of(title[0]).split()) if title else ""
         adm.setdefault(t, []).append(text_of(d, skip=lambda n: n in title).split())
     owner_kind = doc["owner"]
+    if ser.get("var_type"):
+        shown_t = text_of(dom(r["own_type"])).split() if r.get("own_type") else []
+        ctx.count("field:type:variable:%s" % ("shown" if shown_t == [ser["var_type"]] else "DROPPED"))
+        if shown_t != [ser["var_type"]] and not any(re.search(r"\btype\b", l) for l in r["reports"]):
+            ctx.fail("field:type-in-variable-docstring-not-shown", {**inp, "field": ["type", None, ser["var_type"]], "shown_type": r.get("own_type")},
+                     f"{fmt}: `type` field in the {doc.get('var_level')}-level variable's own docstring: the type is not shown where the page shows it and nothing is reported")
     for f in ser["fields"]:
         k, arg, words = f["kind"], f["arg"], f["words"]
         where = None
@@ -1392,6 +1437,9 @@ def oracle_document(ctx: Ctx, fmt: str, doc, ser, full: str, src: str, r) -> Non
                     where = "table:" + h
                     if f["type"] and k in ("param", "return", "yield"):
                         shown_type = name.split(":", 1)[1].strip() if (arg and ":" in name) else ("" if arg else name)
+                        if owner_kind == "property" and k == "return" and shown_type != f["type"]:
+                            # the property's type (`rtype` of the getter) is shown as the type of the attribute
+                            shown_type = " ".join(text_of(dom(r["own_type"])).split()) if r.get("own_type") else ""
                         if shown_type != f["type"]:
                             if owner_kind == "class" and k == "param":
                                 ctx.fail("field:type-of-constructor-parameter-in-class-docstring-hidden",
@@ -1402,6 +1450,9 @@ def oracle_document(ctx: Ctx, fmt: str, doc, ser, full: str, src: str, r) -> Non
                     break
                 if where:
                     break
+            twins = [g for g in ser["fields"] if g is not f and g["kind"] == k and g["arg"] == arg and arg]
+            if where is None and altered is not None and any(g["words"] == altered[1] for g in twins):
+                altered = None          # the row is the other field of the same name: this one is not displayed at all
             if where is None and altered is not None and not in_admonition(k, words, adm):
                 ctx.fail(f"field:text-altered:{k}:{fmt}", {**inp, "field": [k, arg, words], "shown": altered[1]},
                          f"{fmt}: the entry of field {f['tag']} {arg or ''} under '{altered[0]}' does not show the field's own words")
@@ -1415,7 +1466,10 @@ def oracle_document(ctx: Ctx, fmt: str, doc, ser, full: str, src: str, r) -> Non
             if rep:
                 where = "reported"
         ctx.count("field:%s:%s:%s" % (k, owner_kind, (where or "DROPPED").split(":")[0]))
-        if where is None:
+        if where is None and arg and any(g is not f and g["kind"] == k and g["arg"] == arg for g in ser["fields"]):
+            ctx.fail(f"field:duplicate-{k}-first-text-silently-dropped", {**inp, "field": [k, arg, words], "reports": r["reports"][:5]},
+                     f"{fmt}: {k} {arg} is documented twice; the text of one of the two fields is shown nowhere and no duplicate is reported")
+        elif where is None:
             kk = "var" if k in ("ivar", "cvar", "var") else k
             ctx.fail(f"field:{kk}-in-{owner_kind}-silently-dropped", {**inp, "field": [k, arg, words], "reports": r["reports"][:5]},
                      f"{fmt}: field {f['tag']} {arg or ''} of a {owner_kind} docstring is neither displayed under its entry nor reported")
@@ -1603,7 +1657,7 @@ def stream_documents(ctx: Ctx) -> None:
         nested = gen.nested_markup
         for fmt in FORMATS:
             ser = Ser(fmt).document(doc)
-            src, full = module_source(doc["owner"], ser["docstring"])
+            src, full = module_source(doc["owner"], ser["docstring"], doc.get("var_level", "module"))
             inp = {"docformat": fmt, "owner": full, "source": src}
             try:
                 r = render_doc(src, fmt, full)
